@@ -40,6 +40,16 @@ func main() {
 		gc.Emit(out, gc.Run(sc))
 		out.Count("subscribe_with_cancelled_context")
 	}
+	// persistent + blocking: a subscription that arrives after the messages and whose receive loop publishes (to another topic) before
+	// it acks what was replayed to it
+	for i := 0; i < 2; i++ {
+		sc := gc.Scenario{Buf: i, Persistent: true, Blocking: true, Seed: rng.Next(),
+			Subs: []gc.SubSpec{{Topic: 0, Phase: 2, CancelAtRecv: -1, NestedTopic: 1}},
+			Pubs: []gc.PubSpec{{Topic: 0, Calls: 2, Batch: 1}}}
+		out.Begin(sc.Describe())
+		gc.Emit(out, gc.Run(sc))
+		out.Count("replay_with_nested_publish")
+	}
 	// a consumer that keeps one message unsettled for several seconds (nothing may be handed out meanwhile, however long it takes)
 	{
 		sc := gc.Scenario{Buf: 1, Seed: rng.Next(),
